@@ -3,6 +3,7 @@
   what a release of the last reference does, what an element-wise copy creates.
 -/
 import MptModel.Lemmas.Heap
+import MptModel.Lemmas.TokReplay
 namespace Mpt.Heap
 open Mpt
 
@@ -215,10 +216,6 @@ def copyEvs (next : Nat) (bytes : List Byte) (off sz : Nat) : Nat → List Ev
   | 0 => []
   | n + 1 => Ev.copy next (rdTok bytes off) :: copyEvs (next + 1) bytes (off + sz) sz n
 
-def seqFrom (a : Nat) : Nat → List Nat
-  | 0 => []
-  | n + 1 => a :: seqFrom (a + 1) n
-
 theorem rdTok_congr (d d' : List Byte) (p : Nat) (h : ∀ i, i < p + 4 → d'.getD i 0 = d.getD i 0) : rdTok d' p = rdTok d p := by
   unfold rdTok
   rw [h p (by omega), h (p + 1) (by omega), h (p + 2) (by omega), h (p + 3) (by omega)]
@@ -252,21 +249,21 @@ theorem setInitLoop_nofail : ∀ (n : Nat) (s : State) (b pos stop used base : N
     simp only [setInitLoop, if_true, initAt, hb, ho]
     rw [if_neg (by omega)]
     simp only [List.tail_nil]
-    generalize hs1 : State.setBuf { s with oracle := [], next := s.next + 1, log := s.log ++ [Ev.copy s.next (rdTok bytes (pos - base))] } b
+    generalize hs1 : State.setBuf { s with oracle := [], next := s.next + 1, log := s.log ++ [ctorEv s.next (some (rdTok bytes (pos - base)))] } b
       { x with data := Mem.write x.data pos (elemBytes s.next sz) } = s1
     have el := elemBytes_length s.next sz h4
     have wl : (Mem.write x.data pos (elemBytes s.next sz)).length = x.data.length :=
       write_length _ _ _ (by rw [el]; exact f1)
     have hb1 : s1.buf? b = some { x with data := Mem.write x.data pos (elemBytes s.next sz) } := by
       rw [← hs1]
-      have e := State.buf?_setBuf { s with oracle := [], next := s.next + 1, log := s.log ++ [Ev.copy s.next (rdTok bytes (pos - base))] } b b
+      have e := State.buf?_setBuf { s with oracle := [], next := s.next + 1, log := s.log ++ [ctorEv s.next (some (rdTok bytes (pos - base)))] } b b
         { x with data := Mem.write x.data pos (elemBytes s.next sz) } blt
       simpa using e
     have fr1 : Frame s s1 b := by
       rw [← hs1]
       refine ⟨rfl, rfl, by simp, ?_⟩
       intro c ne
-      have e := State.buf?_setBuf { s with oracle := [], next := s.next + 1, log := s.log ++ [Ev.copy s.next (rdTok bytes (pos - base))] } b c
+      have e := State.buf?_setBuf { s with oracle := [], next := s.next + 1, log := s.log ++ [ctorEv s.next (some (rdTok bytes (pos - base)))] } b c
         { x with data := Mem.write x.data pos (elemBytes s.next sz) } blt
       rw [e]; simp [ne]; rfl
     have n1 : s1.next = s.next + 1 := by rw [← hs1]; rfl
@@ -358,13 +355,13 @@ theorem initLoopStop_spec : ∀ (n : Nat) (s : State) (b pos sz : Nat) (x : Buf)
     have f1 : pos + sz ≤ x.size := by omega
     -- the state after a successful construction at `pos` with remaining schedule `o`
     have good : ∀ (o : List Bool),
-        (∃ s1, s1 = State.setBuf { s with oracle := o, next := s.next + 1, log := s.log ++ [Ev.init s.next] } b
+        (∃ s1, s1 = State.setBuf { s with oracle := o, next := s.next + 1, log := s.log ++ [ctorEv s.next none] } b
             { x with data := Mem.write x.data pos (elemBytes s.next sz) }) := fun o => ⟨_, rfl⟩
     have el := elemBytes_length s.next sz h4
     have wl : (Mem.write x.data pos (elemBytes s.next sz)).length = x.data.length :=
       write_length _ _ _ (by rw [el]; exact f1)
     have step : ∀ (o : List Bool) (s1 : State),
-        s1 = State.setBuf { s with oracle := o, next := s.next + 1, log := s.log ++ [Ev.init s.next] } b
+        s1 = State.setBuf { s with oracle := o, next := s.next + 1, log := s.log ++ [ctorEv s.next none] } b
             { x with data := Mem.write x.data pos (elemBytes s.next sz) } →
         (match initLoopStop n s1 b (pos + sz) sz with
           | r => True) →
@@ -376,14 +373,14 @@ theorem initLoopStop_spec : ∀ (n : Nat) (s : State) (b pos sz : Nat) (x : Buf)
       intro o s1 hs1 _
       have hb1 : s1.buf? b = some { x with data := Mem.write x.data pos (elemBytes s.next sz) } := by
         rw [hs1]
-        have e := State.buf?_setBuf { s with oracle := o, next := s.next + 1, log := s.log ++ [Ev.init s.next] } b b
+        have e := State.buf?_setBuf { s with oracle := o, next := s.next + 1, log := s.log ++ [ctorEv s.next none] } b b
           { x with data := Mem.write x.data pos (elemBytes s.next sz) } blt
         simpa using e
       have fr1 : Frame s s1 b := by
         rw [hs1]
         refine ⟨rfl, rfl, by simp, ?_⟩
         intro c ne
-        have e := State.buf?_setBuf { s with oracle := o, next := s.next + 1, log := s.log ++ [Ev.init s.next] } b c
+        have e := State.buf?_setBuf { s with oracle := o, next := s.next + 1, log := s.log ++ [ctorEv s.next none] } b c
           { x with data := Mem.write x.data pos (elemBytes s.next sz) } blt
         rw [e]; simp [ne]; rfl
       have n1 : s1.next = s.next + 1 := by rw [hs1]; rfl
